@@ -90,6 +90,11 @@ type session struct {
 func (s *session) stat(k string) { s.rec.put(record{T: "stat", K: k, N: 1}) }
 
 func (s *session) emit(kind, opLine, impl string, nt bool) {
+	if kind == "insert" || kind == "update" || kind == "delete" {
+		// the real verdict, to be compared with the INDEPENDENT predicate the driver evaluates on the
+		// reference map (`StoreAcceptable` of lean/SemaModel/C01/AcceptModel.lean and the index bit)
+		impl += " acc=" + b01(!isRejected(impl) && impl != "timeout" && impl != "panic")
+	}
 	s.lines = append(s.lines, opLine)
 	s.rec.put(record{T: "emit", Kind: kind, Op: opLine, Impl: impl, NT: nt})
 }
